@@ -17,8 +17,12 @@ pub fn offline_client() -> Arc<Client> {
     client_for("127.0.0.1:9", SessionPoolConfig::default(), PaddingFactory::default())
 }
 
+/// the password the next World is configured with (server and client); scenarios that vary it set it first
+pub static WORLD_PW: Mutex<String> = Mutex::new(String::new());
+pub fn world_pw() -> String { let p = WORLD_PW.lock().unwrap().clone(); if p.is_empty() { "pw".to_string() } else { p } }
+
 pub fn client_for(server_addr: &str, pool: SessionPoolConfig, padding: Arc<PaddingFactory>) -> Arc<Client> {
-    client_with_password("pw", server_addr, pool, padding)
+    client_with_password(&world_pw(), server_addr, pool, padding)
 }
 
 pub fn client_with_password(pw: &str, server_addr: &str, pool: SessionPoolConfig, padding: Arc<PaddingFactory>) -> Arc<Client> {
@@ -175,7 +179,7 @@ impl World {
         let scfg = anytls_rs::util::tls::create_server_config().map_err(|e| e.to_string())?;
         let acceptor = Arc::new(tokio_rustls::TlsAcceptor::from(scfg));
         let spad = match server_scheme { Some(s) => Arc::new(PaddingFactory::new(s)?), None => PaddingFactory::default() };
-        let server = Arc::new(anytls_rs::server::Server::new("pw", acceptor, spad, None));
+        let server = Arc::new(anytls_rs::server::Server::new(&world_pw(), acceptor, spad, None));
         let mut tasks = vec![];
         let mut server_addr = None;
         for _ in 0..5 {
